@@ -1,18 +1,18 @@
 """Runs the registered checks against every kept seeded change, in a scratch worktree (VERIF_REPO), and records the result
-in seeded/<id>/meta.json['detection'].   usage: run_seeds.py [seed-id ...] [--props C01,C02] [--tier quick]"""
+in seeded/<id>/meta.json['detection'].   usage: run_seeds.py [seed-id ...] [--props=C01,C02] [--tier=quick] [--wt=/tmp/wt_seedN]"""
 import json, os, subprocess, sys, time
 
 VERIF = '/verif'
-WT = '/tmp/wt_seed'
 args = [a for a in sys.argv[1:] if not a.startswith('--')]
 opts = dict(a[2:].split('=', 1) for a in sys.argv[1:] if a.startswith('--') and '=' in a)
+WT = opts.get('wt', '/tmp/wt_seed')
 seeds = args or sorted(d for d in os.listdir(VERIF + '/seeded') if not d.startswith('_') and os.path.isdir(VERIF + '/seeded/' + d))
 sys.path.insert(0, VERIF)
 from engine import registry
 head = subprocess.run(['git', '-C', '/repo', 'log', '--format=%h', '-1'], capture_output=True, text=True).stdout.strip()
 subprocess.run(['git', '-C', '/repo', 'worktree', 'remove', '--force', WT], capture_output=True)
 subprocess.run(['git', '-C', '/repo', 'worktree', 'add', '-q', '--detach', WT, 'HEAD'], check=True)
-env = dict(os.environ, VERIF_REPO=WT, VZ_REPO=WT, VERIF_EVIDENCE_DIR='/tmp/seed_evidence', VERIF_REPLAY_DIR='/tmp/seed_replays')
+env = dict(os.environ, VERIF_REPO=WT, VZ_REPO=WT, VERIF_EVIDENCE_DIR=WT + '_evidence', VERIF_REPLAY_DIR=WT + '_replays')
 
 
 def demo(path):
